@@ -100,6 +100,29 @@ DecodeFrom(p, d, off, b, pls, wants) ==
         wants |-> wants \o (IF r.want = 4 THEN <<4>> ELSE <<4, r.want - 4>>)]
 DecodeStream(p, d, b) == DecodeFrom(p, d, 0, b, <<>>, <<>>)
 
+\* --- what the client's connection does with a valid server->client packet -----------------------------
+\* The frames carry two kinds of payload: messages for the user of the connection (adnl.message.query /
+\* adnl.message.answer and anything else) and the transport's own tcp.* messages of ton_api.tl.  The only
+\* tcp.* message a server sends on an established connection without authentication is the keep-alive answer
+\*     tcp.pong random_id:long = tcp.Pong          id dc69fb03, little-endian on the wire: exactly 12 bytes
+\* which the connection consumes itself.  tcp.authentificationNonce belongs to the optional authentication
+\* sub-protocol, which C11 does not cover: whether a connection that asked for no authentication keeps such a
+\* packet or hands it on is left free.  EVERY other valid packet - whatever its first bytes look like, e.g. a
+\* payload that merely starts with the pong id but is not 12 bytes long - reaches the user exactly once, in
+\* order, with exactly its payload.
+IdTcpPong         == <<3, 251, 105, 220>>      \* dc69fb03
+IdTcpPing         == <<154, 43, 8, 77>>        \* 4d082b9a
+IdTcpAuthNonce    == <<182, 74, 93, 227>>      \* e35d4ab6
+IdTcpAuthComplete == <<166, 158, 173, 247>>    \* f7ad9ea6
+IdAdnlQuery       == <<122, 249, 139, 180>>    \* b48bf97a
+IdAdnlAnswer      == <<22, 132, 172, 15>>      \* 0fac8416
+HasPrefix(pl, id) == Len(pl) >= Len(id) /\ SubSeq(pl, 1, Len(id)) = id
+Absorbs(pl) == IF Len(pl) = 12 /\ HasPrefix(pl, IdTcpPong) THEN "yes"
+               ELSE IF HasPrefix(pl, IdTcpAuthNonce) THEN "free"
+               ELSE "no"
+\* the user's view of a sequence of packets the client-side receiver accepted, when every free choice is "keep"
+UserMustGet(pls) == SelectSeq(pls, LAMBDA pl : Absorbs(pl) = "no")
+
 \* ===================================================================== part 2
 VARIABLES
   hs,         \* "none" | "sent" | "accepted" | "rejected"    (the server's view of the handshake)
